@@ -4,6 +4,7 @@ import (
 	"encoding/json"
 	"fmt"
 	"os"
+	"path/filepath"
 	"strings"
 
 	"verif/corpus"
@@ -42,18 +43,27 @@ func Replay(path string) int {
 		var ls []*corpus.LexSpec
 		var cs []*corpus.Custom
 		all := append(append(append(corpus.ParserLanguageAll(true), corpus.WithBounds(corpus.ParserLanguage())...), corpus.ParserPrecedence()...), corpus.ParserRecovery()...)
+		all = append(all, corpus.ParserConflicts()...)
+		var seed, idx int
+		if n, _ := fmt.Sscanf(rp.Item, "R-%d-%d", &seed, &idx); n == 2 && idx < 5000 {
+			all = append(all, corpus.RandomGrammars(int64(seed), idx+1)...)
+		}
 		for _, g := range all {
 			if g.Name == rp.Item {
 				gs = append(gs, g)
 			}
 		}
 		lex := append(append(append(append(append(corpus.LexGreedy(), corpus.LexModes()...), corpus.LexNonGreedy()...), corpus.LexNonGreedyOverlap()...), corpus.LexAccount()...), corpus.LexNumbering()...)
+		lex = append(lex, corpus.LexExotic()...)
+		if n, _ := fmt.Sscanf(rp.Item, "RL-%d-%d", &seed, &idx); n == 2 && idx < 5000 {
+			lex = append(lex, corpus.RandomLexers(int64(seed), idx+1)...)
+		}
 		for _, l := range lex {
 			if l.Name == rp.Item {
 				ls = append(ls, l)
 			}
 		}
-		for _, cu := range corpus.TypeLayouts() {
+		for _, cu := range append(corpus.TypeLayouts(), corpus.BoundsLayouts()...) {
 			if cu.Name == rp.Item {
 				cs = append(cs, cu)
 			}
@@ -66,6 +76,14 @@ func Replay(path string) int {
 		if !(items[0].ExitOK && items[0].Files) {
 			fmt.Println("lox does not generate item", rp.Item, "on this tree:", items[0].Stderr)
 			return 2
+		}
+		if rp.Func == "H_ParserTable" {
+			dumps, derr := c.DumpTables(items[:1])
+			if derr != nil || dumps[items[0].Name] == nil {
+				fmt.Println("cannot dump the constructed table of", rp.Item, derr)
+				return 2
+			}
+			os.WriteFile(filepath.Join(items[0].Dir, "zz_table_h.go"), []byte(tableHarnessGo(items[0].Pkg, dumps[items[0].Name])), 0644)
 		}
 		h.Race = strings.HasPrefix(rp.Harness, "parse.Twin") || strings.HasPrefix(rp.Harness, "lex.Twin")
 		rr, err = c.ReplayGen(items[0], h, cex)
